@@ -1381,8 +1381,11 @@ def run(tier: str) -> int:
     ck = Check("C20", tier)
     ck.trusted = [
         "Lean 4.33.0 kernel; axioms of every theorem ⊆ {propext, Classical.choice, Quot.sound}",
-        "model lean/Koreo/CelAst.lean hand-transcribed from structure_extractor.py; grammar (as compiled by lark), "
-        "dispatch sets, raise sites, name patterns and the position of the schema gate regenerated from the sources",
+        "model lean/Koreo/CelAst.lean hand-transcribed from structure_extractor.py; grammar regenerated from lark's "
+        "compiled rules; the model is proved to agree with fact tables regenerated by PROBING the real code "
+        "(extract_argument_structure on trees covering every node type at every position, _prepare_overlays' missing-"
+        "input report, the schema gate of the five prepare_* on violating specs); the scan of statement shapes is "
+        "kept as information only",
         "celpy 0.3.0 / lark: that the parser only yields trees of its grammar (validated by the parse-tree differential)",
         "fastjsonschema's reading of the bundled CRDs, cross-checked against the jsonschema package (Draft 7)",
         "Python-level exceptions inside the prepare bodies on schema-valid specs are searched, not proved",
